@@ -5,7 +5,7 @@
    Replicator.Replicate), the early test of genProcessFunction also looking at
    the new location, LocalSink.UpdateEntry reporting a moved entry as not found. *)
 From Coq Require Import List NArith ZArith Bool String.
-From SW Require Import model.Repl proof.ReplProofs.
+From SW Require Import model.Repl proof.ReplProofs proof.ReplEmit proof.ReplLocal.
 Import ListNotations.
 
 (* An event all of whose keys lie outside the watched directory, comparing whole
@@ -102,6 +102,112 @@ Theorem c36_local_update_in_place : forall t key np e dc,
 Proof. exact local_update_in_place. Qed.
 Print Assumptions c36_local_update_in_place.
 
+
+(* The rename onto the watched directory itself ([root_move]) is the only event
+   the mirror statement leaves out: create / delete events about the watched
+   directory's own entry are ignored, as the reference says. *)
+Theorem c36_mirror_sync_all : forall c ev,
+  wf_config c = true -> wf_event ev = true -> incremental c = false ->
+  root_move c ev = false ->
+  sync_process c ev = mirror_spec c ev.
+Proof. exact sync_mirror_all. Qed.
+Print Assumptions c36_mirror_sync_all.
+
+(* genProcessFunction's slice-bounds panic (NewParentPath[len(sourcePath):]) needs
+   such a rename; incremental sinks included. *)
+Theorem c36_sync_no_panic : forall c ev,
+  wf_config c = true -> wf_event ev = true -> root_move c ev = false ->
+  is_panic (sync_process c ev) = false.
+Proof. exact sync_no_panic. Qed.
+Print Assumptions c36_sync_no_panic.
+
+(* Incremental sinks (filer.backup with is_incremental): the same mapping with
+   the date folder inserted after the target directory; a change that leaves a
+   new entry only ever creates, a pure delete deletes at that day's folder. *)
+Theorem c36_mirror_incremental : forall c ev,
+  wf_config c = true -> wf_event ev = true -> incremental c = true ->
+  touches_root c ev = false -> plain (date_key ev) = true ->
+  sync_process c ev = mirror_spec_inc c ev.
+Proof. exact sync_mirror_inc. Qed.
+Print Assumptions c36_mirror_incremental.
+
+(* The trigger of finding 0 is no wider than the finding: inside it Replicate's
+   plan differs from the reference. *)
+Theorem c36_replicate_trigger_exact : forall c ev,
+  wf_config c = true -> wf_event ev = true -> incremental c = false ->
+  ev_from_other ev && sink_is_filer c = false ->
+  touches_root c ev = false -> replicate_unsafe c ev = true ->
+  replicate c (event_key ev) ev <> mirror_spec c ev.
+Proof. exact replicate_unsafe_exact. Qed.
+Print Assumptions c36_replicate_trigger_exact.
+
+(* LocalSink, WHOLE HISTORIES.  The full statement -- after any well-formed
+   history the files of the backup directory are the reference file set (every
+   file event applied at the mapped path) -- fails: a file created below a file
+   is ENOTDIR in the backup ... *)
+Theorem c36_local_mirror_refuted : ~ local_mirror_full.
+Proof. exact local_mirror_refuted. Qed.
+Print Assumptions c36_local_mirror_refuted.
+
+(* ... PARTIAL: it holds for every history in which no event meets a clash
+   ([local_clash], decidable: a multipart key, an entry of the other kind at the
+   mapped key, a file among the ancestors of a created file, an entry changing
+   its kind) -- all trees reachable from the empty backup, any length. *)
+Theorem c36_local_mirror : forall c evs,
+  wf_config c = true -> forallb wf_event evs = true -> incremental c = false ->
+  forallb (fun ev => negb (root_move c ev)) evs = true ->
+  local_clash c [] evs = false ->
+  forall p, In p (files_of (fst (run_local c [] evs))) <-> In p (spec_files c evs).
+Proof. exact local_mirror. Qed.
+Print Assumptions c36_local_mirror.
+
+Example c36_local_mirror_example :
+  wf_config w_clash_cfg = true /\ forallb wf_event w_hist = true /\
+  forallb (fun ev => negb (root_move w_clash_cfg ev)) w_hist = true /\
+  local_clash w_clash_cfg [] w_hist = false /\
+  fst (run_local w_clash_cfg [] w_hist) = [("/t"%string, true); ("/t/g"%string, false)] /\
+  spec_files w_clash_cfg w_hist = ["/t/g"%string].
+Proof. exact local_mirror_example. Qed.
+Print Assumptions c36_local_mirror_example.
+
+(* "Never re-applies target-originated changes", the emitting side: the filter of
+   c36_no_echo works on the Signatures of the event.  FULL statement: every
+   event a filer emits while applying a request carries the request's signatures
+   and keeps the IsFromOtherCluster flag.  It fails (finding 1): the events below
+   a recursively deleted directory and the implicitly created parent directories
+   are notified with signatures = nil (and sub-directories with the flag false). *)
+Theorem c36_emit_refuted : ~ emit_full.
+Proof. exact emit_full_refuted. Qed.
+Print Assumptions c36_emit_refuted.
+
+(* PARTIAL: outside the trigger every emitted event carries them; the trigger is
+   exactly the failure on that request; the named entry's own event always does. *)
+Theorem c36_emit_partial : forall op sg fl,
+  emit_unsafe op = false -> In (sg, fl) (emit_labels op) -> emit_ok op sg fl = true.
+Proof. exact emit_partial. Qed.
+Print Assumptions c36_emit_partial.
+
+Theorem c36_emit_trigger_exact : forall op,
+  emit_unsafe op = true -> exists sg fl, In (sg, fl) (emit_labels op) /\ emit_ok op sg fl = false.
+Proof. exact emit_unsafe_exact. Qed.
+Print Assumptions c36_emit_trigger_exact.
+
+Theorem c36_emit_top_ok : forall op m,
+  em_kind op <> ERename -> m_key m = em_top op ->
+  emit_ok op (fst (emit_label op m)) (snd (emit_label op m)) = true.
+Proof. exact emit_top_ok. Qed.
+Print Assumptions c36_emit_top_ok.
+
+(* the consequence for two-way filer.sync: the child event of a recursive delete
+   that came from the filer with signature 7 passes the filter towards that filer *)
+Theorem c36_echo_after_recursive_delete :
+  exists c ev,
+    In (target_sig c) (em_sigs w_emit) /\ target_sig c <> 0%Z /\
+    ev_sigs ev = fst (emit_label w_emit (nth 2 (em_evs w_emit) (nth 0 (em_evs w_emit) (Build_emitted "" false false false [] false)))) /\
+    sync_filtered c ev <> Nothing.
+Proof. exact echo_after_recursive_delete. Qed.
+Print Assumptions c36_echo_after_recursive_delete.
+
 (* non-vacuity: the hypotheses hold on a rename inside /data/ (written with a
    trailing slash) and the plan is the expected move; a move into the subtree
    creates the entry; the sibling /data2 is ignored; the former LocalSink witness
@@ -109,7 +215,7 @@ Print Assumptions c36_local_update_in_place.
 Local Open Scope string_scope.
 Example c36_example :
   let c := {| src := "/data/"; tgt := "/backup"; incremental := false; sink_is_filer := true; target_sig := 7%Z |} in
-  let e := fun n => {| e_name := n; e_isdir := false; e_date := "2021-03-04" |} in
+  let e := fun n => {| e_name := n; e_isdir := false; e_date := "2021-03-04"; e_data := [] |} in
   let mv := {| ev_dir := "/data/a"; ev_old := Some (e "x"); ev_new := Some (e "y"); ev_new_parent := "/data/b";
                ev_delete_chunks := true; ev_from_other := false; ev_sigs := [3%Z] |} in
   let sib := {| ev_dir := "/data2"; ev_old := None; ev_new := Some (e "x"); ev_new_parent := "/data2";
@@ -123,4 +229,5 @@ Example c36_example :
   replicate c (event_key sib) sib = Nothing /\
   files_of (fst (run_local w_lcfg [] [w_lcreate; w_lrename])) = ["/t/b"] /\
   spec_files w_lcfg [w_lcreate; w_lrename] = ["/t/b"].
-Proof. vm_compute. repeat split; reflexivity. Qed.
+Proof. exact c36_example_holds. Qed.
+Print Assumptions c36_example.
